@@ -712,6 +712,20 @@ def r4_r5_copies(ctx: Context, rule4: str = "C04.R4", rule5: str = "C04.R5") -> 
             ctx.analysed_function(f"{rel}::{cname}.{kind}")
             rule = rule4 if kind == "__copy__" else rule5
             init_calls = [c for c in calls_in(fn, "__init__") if dotted(c.func) == "cls.__init__"]
+            dict_copies = [c for c in ast.walk(fn) if isinstance(c, ast.Call) and "__dict__" in norm(c) and call_name(c) in ("update", "copy", "dict")]
+            if dict_copies and not init_calls:
+                # whole-__dict__ copy: every field is shared by reference unless it is re-bound afterwards
+                rebound = set()
+                for a in ast.walk(fn):
+                    if isinstance(a, ast.Assign):
+                        for t in a.targets:
+                            if isinstance(t, ast.Attribute) and isinstance(t.value, ast.Name) and t.value.id != "self":
+                                rebound.add(mangle(cname, t.attr))
+                shared = sorted(f for f in fields if f not in IGNORED_FIELDS and f not in rebound)
+                ctx.check(not shared, rule, f"{cname}.{kind}|no field shared with the original", loc(dict_copies[0]), "every field re-bound",
+                          f"`{norm(dict_copies[0])[:60]}` copies the attribute dictionary: {shared} of the copy are the SAME objects as the original's, "
+                          "so an allocation made on a policy's scratch copy is recorded in the live ledger (and returned twice on deallocate)")
+                continue
             if len(init_calls) != 1:
                 raise AnalysisError(f"{cname}.{kind}: expected one cls.__init__(instance, ...) call")
             ic = init_calls[0]
@@ -775,6 +789,14 @@ def r4_r5_copies(ctx: Context, rule4: str = "C04.R4", rule5: str = "C04.R5") -> 
                 if pname in NESTED_FIELD_OF_PARAM:
                     calls = [c for c in ast.walk(arg) if isinstance(c, ast.Call) and call_name(c) in ("copy", "deepcopy")]
                     good = calls and all(call_name(c) == want for c in calls)
+                    # every element must be copied: a conditional / filtered element expression passes some originals through
+                    for x in ast.walk(arg):
+                        if isinstance(x, (ast.ListComp, ast.GeneratorExp, ast.SetComp)):
+                            elt = x.elt
+                            if not (isinstance(elt, ast.Call) and call_name(elt) == want and elt.args and norm(elt.args[0]) == norm(x.generators[0].target)):
+                                good = False
+                        if isinstance(x, ast.IfExp):
+                            good = False
                     ctx.check(bool(good), rule, f"{cname}.{kind}|nested {pname} via {want}()", loc(arg),
                               f"`{norm(arg)[:60]}`",
                               f"{cname}.{kind} passes `{norm(arg)[:60]}` for `{pname}`: nested state must go through {want}()")
@@ -991,6 +1013,8 @@ def run(ctx: Context) -> None:
     ctx.isolate(r6_removal_on_finish)
     ctx.isolate(_r7_allocation_invariant)
     ctx.isolate(r9_addition_is_additive)
+    from . import c17
+    ctx.isolate(c17.cache_coherence, "C04.R10", ("Resources", "Worker", "WorkerPool"), "ledger queries must follow every allocation", 3)
 
 
 def _r7_allocation_invariant(ctx: Context) -> None:
